@@ -41,6 +41,9 @@ def strategy(tier):
 
 def run_case(case):
     prog = case["prog"]
+    if known.active("three-same-signal-sources") and lang.same_type_fanin(prog):
+        # open finding F-three-same: not judged, counted
+        return {"discard": "excluded:F-three-same", "counters": {"excluded_by:F-three-same": 1}}
     text, res = common.compile_case(case)
     if not res.accepted:
         return common.reject_result(res)
